@@ -155,29 +155,38 @@ class ReservoirSampler(SamplingSketch[T]):
         if other._size != self._size:
             raise ValueError(f"Cannot merge: capacity differs ({self._size} vs {other._size})")
 
-        # Merge using weighted selection
-        # Each item in self has probability self._total_count / combined_total
-        # Each item in other has probability other._total_count / combined_total
+        # Merge by weighted selection WITHOUT replacement: every slot takes one
+        # not-yet-taken sampled item from one side, the side being chosen in
+        # proportion to the number of stream items it still stands for.  The
+        # result is a uniform sample of the combined stream and never holds
+        # an occurrence twice.
         combined_total = self._total_count + other._total_count
 
         if combined_total == 0:
             return
 
-        # Create new reservoir by weighted sampling
+        mine: list[T] = list(self._reservoir)
+        theirs: list[T] = list(other._reservoir)
+        mine_left = self._total_count
+        theirs_left = other._total_count
+
         new_reservoir: list[T] = []
 
         for _i in range(min(self._size, combined_total)):
-            # Decide which reservoir to sample from
-            if self._rng.random() < self._total_count / combined_total:
-                # Sample from self
-                if self._reservoir:
-                    idx = self._rng.randint(0, len(self._reservoir) - 1)
-                    new_reservoir.append(self._reservoir[idx])
+            take_mine = self._rng.random() * (mine_left + theirs_left) < mine_left
+            if take_mine and not mine:
+                take_mine = False
+            elif not take_mine and not theirs:
+                take_mine = True
+            pool = mine if take_mine else theirs
+            if not pool:
+                break
+            if take_mine:
+                mine_left -= 1
             else:
-                # Sample from other
-                if other._reservoir:
-                    idx = self._rng.randint(0, len(other._reservoir) - 1)
-                    new_reservoir.append(other._reservoir[idx])
+                theirs_left -= 1
+            idx = self._rng.randint(0, len(pool) - 1)
+            new_reservoir.append(pool.pop(idx))
 
         self._reservoir = new_reservoir[: self._size]
         self._total_count = combined_total
